@@ -174,7 +174,9 @@ def sub_spi(case, rec=None):
     da = xr.DataArray(x.reshape(n, 1, 1), dims=("time", "y", "x"), coords={"time": t}, attrs={"nodata": nd})
     kw = {}
     if case.get("window") is not None:
-        kw = {"calibration_begin": str(t[win[0]].date()), "calibration_end": str(t[win[1] - 1].date())}
+        # the same window expressed by dates on or BETWEEN the 10-day steps (begin up to 9 days early, end up to 9 days late)
+        b_off, e_off = int(case.get("begin_early", 0)) % 10, int(case.get("end_late", 0)) % 10
+        kw = {"calibration_begin": str((t[win[0]] - pd.Timedelta(days=b_off)).date()), "calibration_end": str((t[win[1] - 1] + pd.Timedelta(days=e_off)).date())}
     res = call("hdc.algo.spi", lambda: da.hdc.algo.spi(**kw))
     req(res.dtype == np.int16, "spi() dtype %s" % res.dtype, "spi dtype")
     return _compare("spi()", res.transpose("y", "x", "time").values[0, 0], x, ok, nd, win, case, rec)
@@ -277,6 +279,8 @@ def pixel(draw, nmax, paths=("gammastd", "yxt", "grp", "accessor")):
         c0 = draw(st.integers(0, n - 2))
         c1 = draw(st.integers(c0 + 2, n))
         case["window"] = [c0, c1]
+        case["begin_early"] = draw(st.sampled_from([0, 0, 3, 9]))
+        case["end_late"] = draw(st.sampled_from([0, 0, 4, 9]))
     if case["path"] == "yxt":
         case["twin_pixel"] = draw(st.booleans())
     return case
